@@ -411,7 +411,35 @@ def _pairc(S):
     return [('pair', S[0], S[1])] + S[2:]
 
 
+def _under(n, f):
+    def g(S):
+        need(len(S) >= n)
+        return S[:n] + f(S[n:])
+    return g
+
+
+def _dup(S):
+    need(len(S) >= 1)
+    return [S[0]] + S
+
+
+def _swap(S):
+    need(len(S) >= 2)
+    return [S[1], S[0]] + S[2:]
+
+
 CODE = {
+    # bodies that consist of ONE instruction which is itself one of the primitives expansions are made of — an expansion that
+    # inspects / merges / flattens its code argument shows up on these and on nothing else
+    'dip_drop': ('{ DIP { DROP } }', _under(1, _drop)),
+    'dip1_push': ('{ DIP 1 { PUSH string "t" } }', _under(1, _push('t'))),
+    'dip2_drop': ('{ DIP 2 { DROP } }', _under(2, _drop)),
+    'dip0_push': ('{ DIP 0 { PUSH string "f" } }', _push('f')),
+    'dip_dip': ('{ DIP { DIP { DROP } } }', _under(2, _drop)),
+    'wrapped_dip': ('{ { DIP { DROP } } }', _under(1, _drop)),
+    'dip_then': ('{ DIP { DROP } ; SWAP }', lambda S: _swap(_under(1, _drop)(S))),
+    'dup': ('{ DUP }', _dup),
+    'swap': ('{ SWAP }', _swap),
     'push_t': ('{ PUSH string "t" }', _push('t')),
     'push_f': ('{ PUSH string "f" }', _push('f')),
     'tag_s': ('{ PUSH string "s" ; PAIR }', _tag('s')),
@@ -612,6 +640,9 @@ def name_universe(ctx, quick):
 
 
 ARG_POOL_TEXT = ['{ UNIT }', '{ DROP }', '{ }', '{ PUSH string "q" ; PAIR }']
+# code arguments made of one primitive that expansions themselves emit
+ONE_PRIM_ARGS = ['{ DIP { DROP } }', '{ DIP 1 { UNIT } }', '{ DIP 2 { DROP } }', '{ { DIP { DROP } } }', '{ DIP { DROP } ; SWAP }', '{ DUP }', '{ SWAP }',
+                 '{ PAIR }', '{ CAR }', '{ IF { UNIT } { DROP } }', '{ DIP { DIP { UNIT } } }', '{ FAILWITH }', '{ COMPARE }', '{ EQ }', '{ { } }']
 
 
 def run(ctx):
@@ -650,6 +681,7 @@ def run(ctx):
     # ---- expansion correspondence + grammar oracle
     table_rx = [rx for rx, _ in real_macros.macros]
     arg_pool = [michelson_to_micheline(t, parser=shared_parser()) for t in ARG_POOL_TEXT] + [{'prim': 'UNIT'}]
+    one_prim_args = [michelson_to_micheline(t, parser=shared_parser()) for t in ONE_PRIM_ARGS]
     names = name_universe(ctx, quick)
     xcases = []     # (name, annots, args)
     for nm in names:
@@ -666,6 +698,11 @@ def run(ctx):
             for an in ANNOT_POOL:
                 xcases.append((nm, an, arg_pool[:want]))
             xcases.append((nm, [], [arg_pool[4]] * want))          # bare primitive instead of a code block
+        if ref is not None and want >= 1 and len(nm) <= 8:
+            for a in one_prim_args:
+                xcases.append((nm, [], [a] + arg_pool[:want - 1]))
+                if want >= 2:
+                    xcases.append((nm, [], arg_pool[:want - 1] + [a]))
     lines = ['X ' + ' '.join(call_tokens(nm, an, ar)) for nm, an, ar in xcases]
     model = ctx.model(lines)
     bad_accept, bad_reject = [], []
@@ -690,8 +727,9 @@ def run(ctx):
             if st != 'ok' and ref is not None:
                 bad_reject.append((nm, res))
             # the parser agrees with expand_macro
+            texts = [ARG_POOL_TEXT[arg_pool.index(a)] if a in arg_pool[:4] else ONE_PRIM_ARGS[one_prim_args.index(a)] for a in ar]
             if re.fullmatch(r'[A-Za-z][A-Za-z0-9_]+', nm):
-                pst, pres = impl_parse(' '.join([nm] + ARG_POOL_TEXT[:len(ar)]))
+                pst, pres = impl_parse(' '.join([nm] + texts))
                 want_p = (st, mich.normalize(res) if st == 'ok' else res)
                 got_p = (pst, mich.normalize(list(pres) if isinstance(pres, list) else pres) if pst == 'ok' else pres)
                 if want_p != got_p:
@@ -736,6 +774,8 @@ def run(ctx):
         add('CMP' + o, [], [1], )                    # too short
         add('CMP' + o, [], ['s', 1, 2])              # not ints
         add('IF' + o, ['nop', 'nop'], [])
+        add('IF' + o, ['dip_drop', 'dup'], [0] + extra + ['x3'])
+        add('IF' + o, ['swap', 'dip2_drop'], [1] + extra + ['x3'])
         add('ASSERT_' + o, [], ['s'])
         add('CMP' + o, [], [2, 1, 'x'], annots=['@r'])
     for b in (True, False):
@@ -770,6 +810,9 @@ def run(ctx):
         add('D' + 'I' * n + 'P', ['drop'], st[:n + 1])
         add('D' + 'I' * n + 'P', ['drop'], st[:n])        # nothing under the protected part
         add('D' + 'I' * n + 'P', ['nop'], st[:n - 1])     # too short
+        for ck in ('dip_drop', 'dip1_push', 'dip2_drop', 'dip0_push', 'dip_dip', 'wrapped_dip', 'dip_then', 'dup', 'swap'):
+            if n <= 4 or ck in ('dip_drop', 'dip1_push'):
+                add('D' + 'I' * n + 'P', [ck], st)
         add('D' + 'U' * n + 'P', [], st)
         add('D' + 'U' * n + 'P', [], st[:n])
         add('D' + 'U' * n + 'P', [], st[:n - 1])          # too short
@@ -822,6 +865,10 @@ def run(ctx):
         add('MAP_C' + p + 'R', ['peek'], [v] + extra)                 # what the code sees below its argument
         add('MAP_C' + p + 'R', ['peek'], [v])
         add('MAP_C' + p + 'R', ['drop'], [v] + extra)                 # code that does not give a value back
+        if len(p) <= 3:
+            add('MAP_C' + p + 'R', ['dup'], [v] + extra)
+            add('MAP_C' + p + 'R', ['dip_drop'], [v] + extra)
+            add('MAP_C' + p + 'R', ['swap'], [v] + extra)
         add('MAP_C' + p + 'R', ['tag_s'], [v] + extra, annots=['%fld'])
         add('MAP_C' + p + 'R', ['tag_s'], [spine_value(p[:-1])] + extra)
         add('MAP_C' + p + 'R', ['nop'], [])
